@@ -9,7 +9,7 @@ from vcheck.props.c01 import summarise
 from spec import gen
 
 PROGS = {n: (s, v) for n, s, v in gen.CURATED}
-TARGETS = ['readme', 'elif3', 'reassign_cond', 'guard_two', 'swap', 'uniform_loc', 'du', 'alias_reuse_lhs', 'or_overlap', 'three_way_overlap', 'exp_lap', 'param2']
+TARGETS = ['readme', 'elif3', 'func_prev_value', 'reassign_cond', 'guard_two', 'swap', 'uniform_loc', 'du', 'alias_reuse_lhs', 'or_overlap', 'three_way_overlap', 'exp_lap', 'param2']
 FUNC_PROG = ("x = 0\nwhile true:\n    d = Normal(0, 1)\n    s = Sin(d)\n    x = x + s*d\nend", ['x'])
 
 
@@ -126,6 +126,8 @@ def check_item(it):
         'after option toggling': ([dict(src=others[0]['src'], goals=others[0]['goals'], settings=dict(cond2arithm=True, transform_categoricals=True)),
                                    dict(src=others[0]['src'], goals=[], settings=dict(cond2arithm=False, transform_categoricals=False)), A], 2, {}),
     }
+    for g in it['goals'][:3]:          # every goal also on its own: one builder serves all goals of a run, nothing may leak from one goal to the next
+        runs[f'goal {g} alone'] = ([dict(src=it['src'], goals=[g])], 0, {})
     for s in it['seeds']:
         runs[f'hash seed {s}'] = ([A], 0, {'PYTHONHASHSEED': str(s)})
     res = {}
